@@ -12,6 +12,7 @@ import Mwp.WireAst
 import Mwp.Model.Analysis
 import Mwp.Spec.Calculus
 import Mwp.Lemmas.RelDefs
+import Mwp.Spec.Syntax
 import Mwp.Spec.BoundText
 open Lean Mwp Mwp.Wire
 
@@ -459,6 +460,36 @@ def checkRelEq (j : Json) : R Json := do
             ("a", jScalar (a.den c x y)), ("b", jScalar (b.den c x y))]
   pure (ok Json.null)
 
+
+-- ---------------------------------------------------------------- C05 / C07 / C19
+def locOp (j : Json) : R Json := do
+  let text ← fStr j "text"
+  let final := text.toList.foldl (fun (st : Spec.LexSt × Bool × Nat) c => Spec.locStep st.1 st.2.1 st.2.2 c) (.code, false, 0)
+  let closed := final.1 == .code || final.1 == .lineComment || final.1 == .slash
+  pure (ok (Json.mkObj [("loc", jNat (Spec.loc text)), ("closed", Json.bool closed)]))
+
+def allLoopsOp (j : Json) : R Json := do
+  let n ← nodeOfJson (← field j "ast")
+  pure (ok (jList jNodeAst (Spec.allLoops Spec.countedFor n)))
+
+/-- C05 predicate: `full` and `warnings` are what the implementation reported for this function
+    (syntax check verdict; "Unsupported syntax" warnings of the analysis). -/
+def checkC05 (j : Json) : R Json := do
+  let n ← nodeOfJson (← field j "ast")
+  let full ← fBool j "full"
+  let warnings ← strListOf (← field j "warnings")
+  if !full then return ok (Json.mkObj [("full", Json.bool false)])
+  if let w :: _ := Spec.unmodellable n then
+    return viol "fully-supported-but-not-modellable" [("construct", Json.str w)]
+  if let w :: _ := Spec.effectfulConds n then
+    return viol "side-effect-in-condition-treated-as-effect-free" [("in", Json.str w)]
+  -- every statement is readable; the only statements the analysis may skip are effect-free
+  -- expression statements (`x;`, `1;`, `x + y;`)
+  if warnings.length > Spec.effectFreeStmts n then
+    return viol "fully-supported-but-statement-skipped" [("warning", Json.str (warnings.headD "")),
+      ("n_warnings", jNat warnings.length), ("n_effect_free_statements", jNat (Spec.effectFreeStmts n))]
+  pure (ok (Json.mkObj [("full", Json.bool true)]))
+
 end Ops
 
 def dispatch (op : String) (j : Json) : R Json :=
@@ -481,6 +512,9 @@ def dispatch (op : String) (j : Json) : R Json :=
   | "check.func" => Ops.checkFunc j
   | "check.C15" => Ops.checkC15 j
   | "model.rel_ops" => Ops.relOps j
+  | "spec.loc" => Ops.locOp j
+  | "spec.all_loops" => Ops.allLoopsOp j
+  | "check.C05" => Ops.checkC05 j
   | "check.C10" => Ops.checkC10 j
   | "check.C10eq" => Ops.checkRelEq j
   | "model.choices" => Ops.choicesModel j
